@@ -4,6 +4,7 @@ import (
 	"context"
 	"github.com/markusressel/fan2go/internal/configuration"
 	"github.com/markusressel/fan2go/internal/sensors"
+	"github.com/markusressel/fan2go/internal/simhook"
 	"github.com/markusressel/fan2go/internal/ui"
 	"github.com/markusressel/fan2go/internal/util"
 	"time"
@@ -30,13 +31,16 @@ func (s sensorMonitor) Run(ctx context.Context) error {
 	for {
 		select {
 		case <-ctx.Done():
+			simhook.Yield("mon.done", s.sensor.GetId())
 			ui.Info("Stopping sensor monitor for sensor %s...", s.sensor.GetId())
 			return nil
 		case <-tick.C:
+			simhook.Yield("mon.tick", s.sensor.GetId())
 			err := updateSensor(s.sensor)
 			if err != nil {
 				ui.Warning("Error updating sensor: %v", err)
 			}
+			simhook.Yield("mon.poll.end", s.sensor.GetId())
 		}
 	}
 }
